@@ -64,3 +64,7 @@ claim('C16', 'histories as generated data (Hypothesis lists of operations) + exh
       'About 11k (quick) / 150k (thorough) histories per run: every mutation through the Path interface is mirrored on a list model, and after every step a battery of queries (len, start, end, continuity, length, point, T2t, bbox, d, ==, hash) must equal the same queries on a new Path of the current segments; length with tolerance arguments must be at least as accurate as a fresh object; segment histories (reassign control points, other tolerances, reversed); equal-by-construction pairs must hash equal; all operation sequences of depth <= 3 over a 24-operation alphabet are enumerated.',
       'Trusts: Python list semantics as the model; Arc end points are not reassigned (not supported by the class); histories are generated as data rather than with RuleBasedStateMachine so that the replay file is the history itself.',
       'DESIGN.md 2/C16')
+claim('C20', 'Hypothesis-generated line/cubic paths built from headings (corner angles 0.5-179 deg, smooth joints, S-type cubics, open/closed) x maxjointsize x tightness; validity predicate on the output (continuity, end points, tangent agreement at every joint, distance to the input, preserved smooth joints)',
+      'About 6k (quick) / 100k (thorough) paths: the smoothed path must be continuous, keep its end points (open) or stay closed, have matching reference unit tangents at every joint including the closing joint, stay within maxjointsize of the input (dense flattening), keep already-smooth joints in place, and return single-segment paths unchanged.',
+      'Trusts: vp/ref/bez_ref.py derivatives with the C15 one-sided-limit rule; joint tolerance 2e-5 plus a conditioning term; 180-degree reversals excluded.',
+      'DESIGN.md 2/C20')
